@@ -455,3 +455,5 @@ MANIFEST = {
     'note': 'Bounded to the generated body families (boundaries, adversarial data items, <=3 parts); trusted: '
             'CPython, copy.deepcopy for state forking (violations are replayed from scratch), the reference encoder.',
 }
+
+MANIFEST['text'] += ' Two further layers feed a 9 KB - 300 KB first part with every cut in its tail, and forms of 300 - 2500 fields in six divisions.'
